@@ -1413,6 +1413,9 @@ def _native(f, args, kwargs):
     except (Unsupported, Infeasible, PathEnd):
         raise
     except Exception as ex:   # noqa: BLE001 -- real python would raise here
+        if isinstance(ex, (TypeError, Unsupported)) and _any_symbolic(list(args), dict(kwargs)):
+            # an artefact of symbolic operands inside a native container operation, not real behaviour
+            raise Unsupported(f"native call {getattr(f, '__name__', f)} on symbolic operands: {ex}")
         CTX.err(True, type(ex).__name__)
         raise PathEnd()
 
